@@ -1,5 +1,4 @@
 import dataclasses as dc
-from collections import deque
 from dataclasses import dataclass
 from typing import Optional
 
@@ -17,7 +16,7 @@ from vyper.evm.address_space import (
 from vyper.exceptions import CompilerPanic
 from vyper.venom.analysis.analysis import IRAnalysis
 from vyper.venom.analysis.cfg import CFGAnalysis
-from vyper.venom.basicblock import IRBasicBlock, IRInstruction, IRLiteral, IROperand, IRVariable
+from vyper.venom.basicblock import IRInstruction, IRLiteral, IROperand, IRVariable
 from vyper.venom.memory_location import (
     Allocation,
     InstAccessOps,
@@ -62,18 +61,18 @@ class BasePtrAnalysis(IRAnalysis):
         self.var_to_mem = dict()
         self.cfg = self.analyses_cache.request_analysis(CFGAnalysis)
 
-        worklist = deque(self.cfg.dfs_pre_walk)
-
-        while len(worklist) > 0:
-            bb: IRBasicBlock = worklist.popleft()
-
+        # the facts of a variable are used wherever the variable is live,
+        # not only in the successors of the defining block (e.g. a pointer
+        # phi at a join which is dereferenced inside a later loop), so a
+        # change anywhere requires another sweep over the whole function.
+        # facts only grow (see _add_possible_ptrs), so this terminates.
+        blocks = list(self.cfg.dfs_pre_walk)
+        changed = True
+        while changed:
             changed = False
-            for inst in bb.instructions:
-                changed |= self._handle_inst(inst)
-
-            if changed:
-                for succ in self.cfg.cfg_out(bb):
-                    worklist.append(succ)
+            for bb in blocks:
+                for inst in bb.instructions:
+                    changed |= self._handle_inst(inst)
 
     def _handle_inst(self, inst: IRInstruction) -> bool:
         opcode = inst.opcode
